@@ -4,7 +4,7 @@
 # compiles, and runs the quick checks (all, or the listed properties) against the copy in parallel.
 # Prints "ALARM <prop>" lines with the violated/undecided obligations, then "RESULT silent|alarm|nocompile".
 set -u
-diff=$1; shift
+diff=$(readlink -f "$1"); shift
 cd /verif
 base=/tmp/repo-dev; [ -d $base ] || base=/repo
 props=("$@"); if [ ${#props[@]} -eq 0 ]; then props=($(./bin/sa list | grep -o '^C[0-9]*')); fi
